@@ -4,6 +4,7 @@
 import PsVerif.Model.Gram
 import PsVerif.Model.NormCalc
 import PsVerif.Model.Sspor
+import PsVerif.Model.Sspoc
 namespace PsVerif.Proto
 
 abbrev P := StateT (List String) Option
@@ -116,6 +117,21 @@ def ssporOp : P SsporOp := do
   else if t == "upd" then do
     let v ← pyCount; let hx ← bool; let ne ← nat; let nf ← nat; let o ← listOf nat
     pure (.updateModes v (if hx then some (ne, nf) else none) o)
+  else failure
+
+def optRat : P (Option Rat) := do
+  match (← get) with
+  | "None" :: ts => set ts; pure none
+  | _ => do let r ← rat; pure (some r)
+
+def sspocOp : P SspocOp := do
+  let t ← tok
+  if t == "fit" then do
+    let nf ← nat; let rf ← bool; let mag ← listOf rat; let d ← listOf nat
+    pure (.fit nf rf mag d)
+  else if t == "upd" then do
+    let n ← optPyCount; let thr ← optRat; let xy ← bool; let mag ← listOf rat
+    pure (.update n thr xy mag)
   else failure
 
 def showOptNat : Option Nat → String
